@@ -30,10 +30,11 @@ const (
 	ansError
 	ansCancelUnsolved
 	ansCancelSolved
+	ansSolvedError // the evaluator marks the generation solved and then fails (e.g. while saving the winner)
 	numAnswers
 )
 
-var c20AnsNames = []string{"unsolved", "solved", "error", "cancel+unsolved", "cancel+solved"}
+var c20AnsNames = []string{"unsolved", "solved", "error", "cancel+unsolved", "cancel+solved", "solved+error"}
 
 var errC20Eval = errors.New("evaluator failed (scripted)")
 
@@ -111,6 +112,12 @@ func (h *c20Harness) GenerationEvaluate(ctx context.Context, pop *genetics.Popul
 	case ansError:
 		h.seen = append(h.seen, s)
 		return errC20Eval
+	case ansSolvedError:
+		g.Solved = true
+		g.Champion = pop.Organisms[0]
+		s.solved = true
+		h.seen = append(h.seen, s)
+		return errC20Eval
 	case ansCancelUnsolved, ansCancelSolved:
 		h.cancel()
 	}
@@ -179,7 +186,7 @@ func c20Reference(cfg c20Config, answers func(i int) int) (events []string, tria
 			a := answers(i)
 			i++
 			events = append(events, fmt.Sprintf("eval(%d,%d)", run, g))
-			if a == ansError {
+			if a == ansError || a == ansSolvedError {
 				return events, trials, true, errC20Eval, i
 			}
 			if a == ansCancelUnsolved || a == ansCancelSolved {
